@@ -876,18 +876,32 @@ def generated_time_checks(idx: Index, res: Result, rule: str) -> None:
         raise AnalysisError("generated memoize() not found in the Jinja template")
     mm = methods["memoize"]
     arg = [a.arg for a in mm.args.args][2]
-    normalised = [n for n in ast.walk(mm) if isinstance(n, ast.Assign) and isinstance(n.value, ast.Call) and call_name(n.value) in ("normalize", "round")
-                  and arg in {x.id for x in ast.walk(n.value) if isinstance(x, ast.Name)}]
+    normalised = [n for n in ast.walk(mm) if isinstance(n, ast.Assign) and arg in {x.id for x in ast.walk(n.value) if isinstance(x, ast.Name)}
+                  and any(isinstance(c, ast.Call) and call_name(c) in ("normalize", "round") for c in ast.walk(n.value))]
     keys = [n for n in ast.walk(mm) if isinstance(n, ast.Subscript) and isinstance(n.value, ast.Name) and n.value.id == "mymemo"]
     probe = [n for n in ast.walk(mm) if isinstance(n, ast.Compare) and isinstance(n.ops[0], ast.In) and "mymemo" in src(n.comparators[0])]
     if not keys or not probe:
         raise AnalysisError("generated memoize(): memo accesses not found")
-    raw = [k for k in keys if src(k.slice) == arg] + [p for p in probe if src(p.left) == arg]
-    res.check(rule, "generated memoize() keys its memo on a normalised time", bool(normalised) or not raw, "%s (template)" % JINJA, "jinja:simulation_model.memoize",
+    norm_names = {t.id for n in normalised for t in n.targets if isinstance(t, ast.Name)}
+    for _ in range(3):
+        for n in ast.walk(mm):
+            if isinstance(n, ast.Assign) and isinstance(n.targets[0], ast.Name) and isinstance(n.value, ast.Name) and n.value.id in norm_names:
+                norm_names.add(n.targets[0].id)
+    raw = [k for k in keys if src(k.slice) not in norm_names] + [p for p in probe if src(p.left) not in norm_names]
+    res.check(rule, "generated memoize() keys its memo on a normalised time", not raw, "%s (template)" % JINJA, "jinja:simulation_model.memoize",
               "; ".join(sorted({src(k)[:40] for k in raw})),
               "the generated model's memoize() probes and fills its memo with the raw float argument '%s' and previous() emits raw t-self.dt: "
               "for dt=0.1 the countdown from 0.4 reaches 2.8e-17 instead of 0, the test t <= self.starttime fails and one extra "
               "integration step is taken (S'=1 gives S(0.4)=0.5)" % arg, key="%s/jinja:simulation_model.memoize/key=%s" % (rule, arg))
+    # the normalisation must be relative to the model's own grid (start + k*dt): rounding to a fixed number of decimals is right
+    # for decimal dt only - with dt=1/3 the rounded time minus dt misses the previous grid point
+    for n in normalised:
+        txt = src(n.value)
+        grid_rel = "self.dt" in txt and "self.starttime" in txt
+        res.check(rule, "generated memoize() normalises relative to its own grid (start, dt)", grid_rel, "%s (template)" % JINJA, "jinja:simulation_model.memoize",
+                  norm_stmt(n)[:120], "the generated memoize() normalises the time with '%s', which does not refer to self.starttime and self.dt: "
+                  "a fixed decimal rounding breaks reciprocal dt (1/3: the rounded 0.6666666667 - dt is not the previous grid point, an extra "
+                  "integration step is taken)" % norm_stmt(n)[:80], key="%s/jinja:simulation_model.memoize/not-grid-relative" % rule)
     eq = methods.get("equation")
     ok = eq is not None and any(isinstance(n, ast.Return) and isinstance(n.value, ast.Call) and call_name(n.value) == "memoize" for n in ast.walk(eq))
     res.check(rule, "generated equation() delegates to memoize()", ok, "%s (template)" % JINJA, "jinja:simulation_model.equation", "return self.memoize(equation, arg)",
@@ -988,13 +1002,25 @@ def check_c04(idx: Index, tier: str, res: Result) -> None:
     # net-flow forms
     sums = [n for n in walk_no_nested(sx.node) if isinstance(n, ast.Assign) and src(n.targets[0]) == "sum"]
     forms = []
+    flow_probes = {"inflows": "i1 + i2", "outflows": "o1 + o2"}
     for n in sums:
         if isinstance(n.value, ast.Dict):
-            t = ast.fix_missing_locations(_ir_tree(_ir_from_literal(n.value, {}), {"inflows": "IN", "outflows": "OUT"}))
-            forms.append((n, nf(t)))
+            irn = _ir_from_literal(n.value, {})
+            # what the literal *means* (tree) and what it becomes once flattened to text by the operator templates
+            t = nf(ast.fix_missing_locations(_ir_tree(irn, flow_probes)))
+            txt = _ir_render(irn, dict(ops), flow_probes)
+            try:
+                flat = nf(parse_expr(txt))
+            except SyntaxError:
+                flat = None
+            res.check("EULER", "net-flow literal '%s' keeps its meaning when flattened" % " ".join(txt.split())[:50], flat == t, sx.loc(n), sx.qual,
+                      " ".join(txt.split())[:120], "the net-flow literal flattens to '%s', which is not what the IR tree means (with two or more "
+                      "flows the later ones change sign)" % " ".join(txt.split())[:100], key="EULER/StockExpressions/net-flattened/%s" % " ".join(txt.split())[:40])
+            forms.append((n, flat))
         elif isinstance(n.value, ast.Constant):
             forms.append((n, nf(parse_expr(repr(n.value.value)))))
-    wanted = {"inflows only": nf(parse_expr("IN")), "outflows only": nf(parse_expr("-1 * OUT")), "both": nf(parse_expr("IN - OUT")), "none": nf(parse_expr("0"))}
+    wanted = {"inflows only": nf(parse_expr("i1 + i2")), "outflows only": nf(parse_expr("-1 * (o1 + o2)")),
+              "both": nf(parse_expr("i1 + i2 - (o1 + o2)")), "none": nf(parse_expr("0"))}
     have = [f for _, f in forms]
     for label, w in wanted.items():
         res.check("EULER", "net flow, %s" % label, w in have, sx.loc(), sx.qual, label,
